@@ -1,0 +1,12 @@
+//go:build verif
+
+package ntor
+
+import "gitlab.com/yawning/obfs4.git/internal/x25519ell2"
+
+// VerifScalarBaseMult re-exports the module-internal Elligator 2 key
+// generation.  Verification hook (build tag verif); not part of the package
+// API.
+func VerifScalarBaseMult(publicKey, representative, privateKey *[32]byte, tweak byte) bool {
+	return x25519ell2.ScalarBaseMult(publicKey, representative, privateKey, tweak)
+}
